@@ -345,7 +345,7 @@ int main(int argc, char** argv) {
     }
     std::vector<CaseId> cases;
     for (int leaf : leaves) for (auto& s1 : specs) for (auto& s2 : specs) {
-        if (!T && s2.org != s2.refl) continue;
+        if (!T && s2.org != s2.refl && s2.rot != 0) continue;   // quick: origin tied to reflection, except for unrotated outer references (mirror-only and translate-only placements at magnification 1 and 2)
         if (!T && s1.org != 1) continue;
         if (s1.rep != REP_NONE && s2.rep != REP_NONE && leaf == L_MIXED && !T) continue;  // quick: mixed leaf with one repeated level at most
         cases.push_back({leaf, s1, s2});
